@@ -246,6 +246,9 @@ func (st *c03state) r7op(tk []string) (string, bool) {
 	if len(tk) == 3 && tk[1] == "fids" {
 		return st.fids(tk[2]), true
 	}
+	if len(tk) == 7 && tk[1] == "pbi" {
+		return st.pbi(tk[2], tk[3], tk[4], tk[5], tk[6]), true
+	}
 	return "", false
 }
 
